@@ -23,6 +23,7 @@ From Coq Require Import List String Arith Bool Lia.
 Import ListNotations.
 From MVGen Require Import JsGates_gen.
 From MV Require Import Js.PrintModel Js.PrintSpec Js.PrintGen Js.PrintProofs Js.PrintGroup Js.RewriteModel Js.RewriteSem Js.RewriteProofs Js.RewritePipe Js.RewritePipeProofs Js.StmtModel Js.StmtSem Js.StmtProofs Js.StmtPrint Js.StmtParse Js.StmtPrintProofs Js.NumLit Js.NumLitSpec Js.NumLitProofs Js.StrLit Js.StrLitSpec Js.StrLitProofs.
+From MV Require Js.PrintRender Js.PrintRenderProofs.
 From MV Require Base.MvBytes Num.NumModel Num.NumSpec.
 From Coq Require Import ZArith.
 Local Open Scope string_scope.
@@ -366,3 +367,29 @@ Example string_literals_nonvacuous :
    minify_string [34; 92; 48; 92; 120; 51; 49; 34] false = [34; 92; 120; 48; 48; 49; 34] /\
    minify_string [34; 92; 110; 92; 110; 92; 120; 50; 52; 123; 34] true = [96; 10; 10; 92; 36; 123; 96])%Z.
 Proof. vm_compute. repeat split; reflexivity. Qed.
+
+(* ---------- from tokens to BYTES: the writer's spaces ----------
+   Js/PrintRender.v restates jsMinifier.write with its needsSpace / spaceBefore flags and the places of minifyExpr that set
+   them (after + - / binary and unary, after the word operators, the raw space before in / instanceof, the space before `>`
+   after `--`, the `<!--` guard); tied BYTE FOR BYTE with the real js.Minify on every expression case of the run (~12,000).
+   Specification: a maximal-munch lexer over the punctuators, identifiers and numbers of the fragment.
+   For EVERY expression whose atoms are identifiers and whose operators sit in their syntactic class, at every context level
+   and for ANY precedence tables: lexing the written bytes gives back exactly the printer's tokens — no two tokens fuse into
+   another one (a+ +b, a- --b, a+++ ++b, a<! --b, a-- >b, typeof a in void-b), none splits: the spaces the writer inserts
+   are sufficient.  With print_derives (the tokens derive the tree) this closes the path from tree to bytes on the fragment.
+   (A JavaScript lexer reads `1.` as a number: that a dot never follows a digit atom is print_no_digit_dot, under a table
+   condition the regenerated constant guards satisfy.) *)
+Theorem written_bytes_lex_back_to_the_tokens : forall T prec e,
+  PrintRenderProofs.expr_ok e = true ->
+  PrintRender.lex_bytes (PrintRender.render (print T prec e)) = Some (map PrintRender.tok_surface (print T prec e)).
+Proof. exact PrintRenderProofs.render_lexes_back. Qed.
+Print Assumptions written_bytes_lex_back_to_the_tokens.
+
+Theorem no_dot_after_a_digit : forall T prec e,
+  PrintRenderProofs.tables_dot_ok T = true -> PrintRenderProofs.expr_ok e = true -> PrintRenderProofs.dot_ok e = true ->
+  PrintRenderProofs.no_digit_dot (print T prec e) = true.
+Proof. exact PrintRenderProofs.print_no_digit_dot. Qed.
+Print Assumptions no_dot_after_a_digit.
+
+Example generated_tables_dot_ok : PrintRenderProofs.tables_dot_ok T_gen = true.
+Proof. vm_compute. reflexivity. Qed.
